@@ -15,6 +15,10 @@ from pvc import val as V
 from contracts import spec as SP
 from contracts.C02 import forall_b, forall_n, forall_real, goal_over_paths, arr, density_spec, pit_requires
 
+# property-level native oracle used as the replay of refuted obligations that carry no model-specific replay
+FALLBACK_REPLAY = {"handler": "bounded", "input": {"what": "section_equivalence"},
+                   "expected": "a sectioned pipe equals its sections in series for every labelling order and orientation"}
+
 BR = "pandapipes.idx_branch"
 ND = "pandapipes.idx_node"
 RX = "pandapipes.pf.result_extraction"
@@ -301,3 +305,32 @@ for _g in (False, True):
 @unit("C09", "orientation/heat_capacity", functions=["pandapipes.properties.properties_toolbox:get_branch_cp"], engine="E2")
 def orientation_cp(ctx):
     _shared(ctx, "contracts.C10", "branch_cp")
+
+
+
+@unit("C09", "bounded/section_equivalence", functions=["pandapipes.pf.result_extraction:extract_branch_results_with_internals",
+                                                       "pandapipes.component_models.pipe_component:Pipe.create_pit_branch_entries"], engine="bounded")
+def section_equivalence_bounded(ctx):
+    """property-level bounded stand-in (np.repeat / argsort placement code of the multi-section pipes) and fallback replay"""
+    from pvc.harness import venv_run
+    inp = {"what": "section_equivalence"}
+    res = venv_run("bounded.py", inp, timeout=3000)
+    ctx.bounded("sectioned-pipe-equals-pipes-in-series-for-every-labelling-and-orientation", res["ok"],
+                "one water network (4 junctions at different heights, 3 pipes with 2 / 3 / 1 sections, heat losses, sequential mode, "
+                "feed temperature = start temperature): all 6 assignments of the pipe labels x 3 sets of pipes drawn against the flow x "
+                "use_numba False/True, each against the network with every pipe split into single-section pipes in series: outlet "
+                "temperature, end pressure and mass flow of every pipe (rtol 1e-5)",
+                res["cases"], witness=res["witness"], replay={"handler": "bounded", "input": inp} if not res["ok"] else None)
+
+
+@unit("C09", "thermal_kernel/numpy", functions=["pandapipes.pf.derivative_toolbox:derivatives_thermal_np"], engine="E2")
+def thermal_kernel_np_c09(ctx):
+    """reversing a branch leaves the heat terms unchanged: they depend on |mdot| and the flow-corrected inflow node (shared with C10)"""
+    import contracts.C10 as C10
+    C10._kernel(ctx, C10.TB + ":derivatives_thermal_np")
+
+
+@unit("C09", "thermal_kernel/numba", functions=["pandapipes.pf.derivative_toolbox_numba:derivatives_thermal_numba"], engine="E2")
+def thermal_kernel_nb_c09(ctx):
+    import contracts.C10 as C10
+    C10._kernel(ctx, C10.TBN + ":derivatives_thermal_numba")
